@@ -28,6 +28,7 @@ RULE = ("random histories of 4-10 operations {full, take k+close, take k+keep al
         "object twice; every full evaluation and a final full evaluation of every pool query is compared with the "
         "oracle. Non-trivial: the history contains at least one interrupting operation (partial / raising) before a "
         "full evaluation of a query whose oracle result is neither empty nor the whole product.")
+RULE += " Size cases (every tier): pools of 2-3 queries over one variable with 120-400 objects (alternatives, so that hundreds of rows pass de-duplicating nodes), full and partial evaluations in turn."
 LEVEL_TEXT = ("Offline checker over recorded histories of API calls on the real objects: after arbitrary earlier evaluations "
               "(completed, abandoned, closed, garbage collected, aborted by an exception from user code) every query must "
               "return its fresh-evaluation result; domain lists and objects are snapshotted and compared. The node "
